@@ -62,6 +62,7 @@ def model_check(s, prop, workers=4, timeout=900):
     props = ["ResultStable"] if prop == "C15" else []
     extra = None
     expected_outcome = None
+    expected_results = None
     if prop in ("C03", "C06") and s.get("confluent"):
         # pass 1: one simulated behaviour fixes the expected canonical results
         cfg1 = os.path.join(WORK, "mc1_%s.cfg" % tag)
@@ -72,9 +73,11 @@ def model_check(s, prop, workers=4, timeout=900):
             raise ToolError("model of %s never becomes quiescent in simulation" % s["name"])
         invs += ["Confluent"] + (["NoHang"] if s.get("terminates") else [])
         try:
-            o = json.load(open(efile + ".json"))["outcome"]
+            ej = json.load(open(efile + ".json"))
+            o = ej["outcome"]
             if o and o[0].get("ok"):
                 expected_outcome = o[0]["v"]
+            expected_results = ej.get("results")
             os.remove(efile + ".json")
         except (OSError, ValueError, KeyError):
             pass
@@ -86,6 +89,7 @@ def model_check(s, prop, workers=4, timeout=900):
         if os.path.exists(f):
             os.remove(f)
     res.expected_outcome = expected_outcome
+    res.expected_results = expected_results
     return res
 
 
@@ -113,6 +117,8 @@ def make_requests(scenarios, entry, nsched, seed0, nws=None, keep=10, rare_max=6
                  "terminates": bool(s.get("terminates"))}
             if s.get("expected_outcome") is not None:
                 m["expected_outcome"] = s["expected_outcome"]
+            if s.get("expected_results") is not None:
+                m["expected_results"] = s["expected_results"]
             driver = "default" if i == 0 else ("pct" if i % 3 == 2 else "random")
             reqs.append({"id": "%s#%d" % (s["name"], i), "group": s["name"], "keep": keep, "rare_max": rare_max,
                          "src": src, "nw": nw, "driver": driver,
@@ -202,6 +208,8 @@ def run(prop, tier):
             check.add_tlc("mc:" + s["name"], res)
             if getattr(res, "expected_outcome", None) is not None:
                 s["expected_outcome"] = res.expected_outcome
+            if prop == "C06" and getattr(res, "expected_results", None) and not s.get("has_refs"):
+                s["expected_results"] = res.expected_results
             if not res.ok:
                 mc_fail.append((s["name"], res.violated, res.out[-3000:]))
     check.cov["model_check_wall_s"] = round(time.time() - t0, 1)
